@@ -70,6 +70,7 @@ Definition eraser (ea : list Z) (eb : list (Z * Z)) (l : stereo_labels) : stereo
 Definition slab_eqb (x y : stereo_labels) : bool := list_eqb lab_eqb (fst x) (fst y) && list_eqb blab_eqb (snd x) (snd y).
 Definition final_ok ea eb hs th ct nb tags rbonds exp :=
   pyres_eqb slab_eqb (from_stereo_final (eraser ea eb) (isH_of hs) th ct (nb_of nb) tags rbonds) exp.
+Definition ringb_ok sizes exp := Bool.eqb (ring_bond_chiral sizes) exp.
 Definition rbo_ok t exp := pyres_eqb Z.eqb (rdkit_bond_order t) exp.
 Definition bt_ok o exp := pyres_eqb String.eqb (bond_type o) exp.
 '''
@@ -235,6 +236,15 @@ ATOM_SMILES = [
     'ClI(Cl)Cl', 'C#N', 'C#C', '[C-]#[O+]', 'N#N', 'O=O', 'C', 'O', 'N', 'CC(C)(C)C', '[CH2:7]=[CH2:3]', '[CH3:2][OH:1]',
     'c1ccccc1', 'c1ccncc1', 'c1cc[nH]c1', 'c1ccoc1', 'c1ccsc1', 'c1ccc2ccccc2c1', 'Cn1cnc2ccccc12', 'c1ccc2[nH]ccc2c1', 'O=c1cc[nH]cc1',
     'c1ccccc1-c1ccccc1', 'C1=CC=CC=C1', 'C1=CC=CN=C1', 'C1=COC=C1', 'O=C1C=CC(=O)C=C1', 'c1cnc[nH]1', 'c1ccc[n+]([O-])c1', '[O-][n+]1ccccc1']
+# atoms that carry a formal charge AND an isotope label (each attribute of the per-atom chain together with the others)
+ISO_CHARGE_SMILES = ['[15NH4+]', 'C[15N+](C)(C)C', 'CC(=O)[18O-]', '[13C-]#[O+]', 'c1cc[15nH+]cc1', '[13CH3-]', '[13CH3+]', 'C[18OH+]C', '[2H+]', '[2H-]',
+                     '[35Cl-]', '[37Cl-].[23Na+]', 'C[13C](=O)[O-]', 'C[34S-]', '[15N-]=[N+]=NC', 'C[15N+]#[C-]', 'C[13C-]=[N+]=N', '[13CH2]C |^1:0|',
+                     '[15NH3+][C@@H](C)C(=O)[18O-]', 'C[14C@H]([15NH3+])C(=O)[O-]']
+# E/Z double bonds inside rings of 7, 8, 9 and more atoms (chython and RDKit keep the configuration from eight atoms on)
+RING_ALKENE_SMILES = ['C1CCC/C=C/CC1', 'C1CCC/C=C\\CC1', 'C1CC/C=C\\CC1', 'C1CCCC/C=C/CC1', 'OC1CCC/C=C/CC1', 'C1CC/C(C)=C(C)/CCC1',
+                      'CC1CC/C=C/CCC1', 'CC1CC/C=C\\CCC1', 'OC1CCC/C=C\\CC1', 'C1CCCC/C=C\\CC1', 'C1CCCC/C=C/CCC1', 'C1C/C=C\\CC1', 'O=C1CC/C=C/CCC1',
+                      'C1CCC/C=C/C/C=C/CCC1', 'C1CC/C(C)=C(C)\\CCC1', 'N1CCC/C=C/CC1', 'C1CCC/C=C/CC1C(=O)O', 'C/1CCCCCC\\C=1', 'CCC/C=C/CCC',
+                      'C1CCCCC/C=C/CCCCC1']
 BARE_SMILES = ['[Na]', '[K]', '[Li]', '[Mg]', '[Ca]', '[Al]', '[B]', '[Si]', '[P]', '[S]', '[Se]', '[Ge]', '[As]', '[Sn]', '[Pb]',
                '[Na].[Cl]', '[S].C', '[Be]', '[Ga]', '[In]', '[Sb]', '[Bi]', '[Te]', '[Rb]', '[Cs]', '[Sr]', '[Ba]']
 
@@ -348,6 +358,34 @@ class Cases:
         self.smallmeta.append(meta)
 
 
+def corr_ring_bonds(cs, tag, m):
+    """the ring-size rule of __chiral_centers on every plain ring double bond of m: it counts as a stereo element (labelled, or
+    offered as chiral) exactly when no ring through its first atom has fewer than eight atoms"""
+    ck = cs.ck
+    try:
+        terms = m.ring_cumulenes_terminals
+        reg = m.stereogenic_cis_trans
+        if not any(nm in reg for nm in terms):
+            return
+        chiral = m.chiral_cis_trans
+        rings = m.atoms_rings
+    except Exception:
+        return
+    for n, mm in sorted(terms):
+        if (n, mm) not in reg:
+            continue
+        try:
+            i, j = m._stereo_cis_trans_centers[n]
+            lab = m.bond(i, j).stereo is not None
+        except Exception:
+            continue
+        sizes = [len(r) for r in rings[n]]
+        obs = lab or (n, mm) in chiral
+        cs.add(f'ringb_ok {lst(sizes, zraw)} {b(obs)}', (tag, 'ring-double-bond', n, mm, sizes, obs))
+        ck.count('ring-double-bond:' + ('stereo element' if obs else 'not a stereo element') + f':smallest ring {min(min(sizes), 9) if sizes else 0}')
+        ck.case(('ringb', tag, n, mm), nontrivial=obs)
+
+
 def corr_to(cs, tag, m, keep=True):
     """one run of the real to_rdkit_molecule on m against the model"""
     ck = cs.ck
@@ -360,6 +398,7 @@ def corr_to(cs, tag, m, keep=True):
     centers = dict(m._stereo_cis_trans_centers) if labelled else {}
     ctreg = dict(m.stereogenic_cis_trans) if labelled else {}
     hs = [t[0] for t in snap['atoms'] if t[1] == 1]
+    corr_ring_bonds(cs, tag, m)
     tap = TapTo()
     rd = tap.run(m, keep_mapping=keep)
     meta = (tag, 'to', keep)
@@ -456,6 +495,8 @@ def corr_from(cs, tag, rd):
     bonds = lst([cbond_term((bi + 1, ei + 1, by_pair.get(frozenset((bi + 1, ei + 1)), (-1, None))[0])) for bi, ei, _ in rsnap['bonds']])
     cs.add_big(f'{head} (Ok ({atoms}, {bonds}))' if same_count else 'false', meta)
     hs = pre['hs']
+    if m is not None:
+        corr_ring_bonds(cs, tag + '|result', m)
     spare = 2
     stereo_of = {t[0]: t[9] for t in pre['atoms']}
     for i, (name, nb) in enumerate(rsnap['tags']):
@@ -752,6 +793,8 @@ def correspondence(ck, n_corpus):
         return list(seq) if full else corpus.sample(seq, n, ck.seed, 'c20:' + salt)
     pool = [('stereo', x) for x in pick(STEREO_SMILES, 22, 'st')] + [('metal', x) for x in pick(METAL_SMILES, 12, 'me')] + \
            [('atoms', x) for x in pick(ATOM_SMILES, 22, 'at')] + [('bare', x) for x in pick(BARE_SMILES, 3, 'ba')] + [('dative', x) for x in pick(dative_smiles(), 8, 'da')] + \
+           [('isotope+charge', x) for x in ISO_CHARGE_SMILES[:6] + pick(ISO_CHARGE_SMILES[6:], 4, 'ic')] + \
+           [('ring-alkene', x) for x in RING_ALKENE_SMILES[:6] + pick(RING_ALKENE_SMILES[6:], 4, 'ra')] + \
            [('perm', x) for x in pick(perm_smiles(), 14, 'pe')] + \
            [('corpus', x) for x in corpus.sample(corpus.lipo(), n_corpus, ck.seed, 'c20corr')] + \
            [('corpus-stereo', x) for x in corpus.sample(corpus.stereo_smiles(), n_corpus // 2, ck.seed, 'c20corrs')]
@@ -759,7 +802,7 @@ def correspondence(ck, n_corpus):
     for kind, smi in pool:
         forms = normal_forms(smi)
         ck.count('corr-input:' + kind + ('' if forms else ' (not accepted by chython)'))
-        rich = kind in ('stereo', 'perm', 'corpus-stereo')
+        rich = kind in ('stereo', 'perm', 'corpus-stereo', 'ring-alkene')
         if forms:
             kek, aro = forms
             variants = [('kekule', kek), ('aromatic', aro)] if str(kek) != str(aro) else [('plain', kek)]
@@ -986,6 +1029,16 @@ def ch_stereo_elements(m):
     return atoms, bonds
 
 
+def rd_must_arrive(rd):
+    """the stereo elements of an RDKit molecule (as RDKit itself perceived them from a string) that are inside chython's
+    domain: CW/CCW carbons with three or more non-hydrogen neighbours (hydrogen isotopes count as hydrogen for chython) and every
+    E/Z double bond"""
+    atoms, bonds = rd_stereo_elements(rd)
+    atoms = {i for i in atoms if rd.GetAtomWithIdx(i).GetAtomicNum() == 6 and
+             sum(1 for x in rd.GetAtomWithIdx(i).GetNeighbors() if x.GetAtomicNum() != 1) >= 3}
+    return atoms, bonds
+
+
 def parse_ref(smi):
     """RDKit's own reading of the string, hydrogens kept as atoms so that atom i is the i-th atom of the string"""
     from rdkit import Chem
@@ -1113,6 +1166,14 @@ def oracle_to(rep, smi, form, m, order, ref):
         ref_of = {idx[n]: pos[n] for n in nums}
         lost_a = {i for i in lost_a if ref_of[i] in f_atoms}
         lost_b = {p for p in lost_b if frozenset(ref_of[i] for i in p) in f_bonds}
+    if ref is not None and form == 'aromatic':
+        ma, mb = rd_must_arrive(ref)
+        miss_a = {i for i in ma if order[i] not in c_atoms}
+        miss_b = {p for p in mb if frozenset(order[i] for i in p) not in c_bonds}
+        if miss_a or miss_b:
+            rep.counterexample(f'to-stereo-not-held:{key}', 'the chython molecule of the string holds no label where RDKit holds one (carbon centre with three or more heavy '
+                               'neighbours / double bond): to_rdkit_molecule(smiles(s)) loses configuration relative to RDKit\'s reading',
+                               {'smiles': smi, 'form': form}, [sorted(miss_a), [sorted(x) for x in miss_b]], 'a label on each', 'RDKit stereo perception', replay_py=py_to(smi, form))
     if lost_a or lost_b:
         rep.counterexample(f'to-stereo-lost:{key}', 'a configuration label of the chython molecule does not arrive in the RDKit molecule',
                            {'smiles': smi, 'form': form}, [sorted(lost_a), [sorted(x) for x in lost_b]], 'all labels', 'label by label', replay_py=py_to(smi, form))
@@ -1262,6 +1323,14 @@ def oracle_from(rep, smi, variant, rd, m_ref):
         rep.counterexample(f'from-stereo-not-reset:{key}', 'from_rdkit_molecule leaves configuration labels that fix_stereo() removes (labels on centres the library does not consider stereogenic)',
                            inp, [sorted(c_all), [sorted(x) for x in c_bonds]], [sorted(after[0]), [sorted(x) for x in after[1]]], 'fix_stereo() is idempotent on the result',
                            replay_py=py_from(smi))
+    if m_ref is not None:
+        # rd is RDKit's own reading of a string: what it holds on carbon centres and double bonds must arrive
+        ma, mb = rd_must_arrive(rd)
+        if ma - c_atoms or mb - c_bonds:
+            rep.counterexample(f'from-stereo-dropped:{key}', 'a configuration label RDKit holds (carbon centre with three or more heavy neighbours / double bond) does not '
+                               'arrive in the chython molecule', inp, [sorted(ma - c_atoms), [sorted(x) for x in mb - c_bonds]], 'all such labels', 'label by label',
+                               replay_py=py_from(smi))
+        ck.count('search-from:labels that must arrive', len(ma) + len(mb))
     al = m_ref is not None and aligned(m_ref, rd)
     if al:
         # what chython itself holds when it reads the string decides which RDKit labels are expected to arrive
@@ -1560,6 +1629,26 @@ def search_one(rep, kind, smi, rng):
             rep.counterexample(f'to-form-dependent:{smi}|{f2}', f'to_rdkit_molecule gives different molecules for the {f1} and the {f2} form of one molecule',
                                {'smiles': smi, 'forms': [f1, f2], 'renumbering': mp}, can_smiles(r2), can_smiles(r1), 'RDKit canonical isomeric SMILES + chirality-aware isomorphism',
                                replay_py=py_to(smi, f1) + '\n' + py_to(smi, f2))
+    rd0 = Chem.MolFromSmiles(smi)
+    if rd0 is not None:
+        for bd in rd0.GetBonds():
+            st = bd.GetStereo()
+            if st in (Chem.BondStereo.STEREOE, Chem.BondStereo.STEREOZ):
+                rd1 = Chem.Mol(rd0)
+                rd1.GetBondWithIdx(bd.GetIdx()).SetStereo(Chem.BondStereo.STEREOZ if st == Chem.BondStereo.STEREOE else Chem.BondStereo.STEREOE)
+                if Chem.MolToSmiles(rd1) == Chem.MolToSmiles(rd0):
+                    continue
+                from chython.utils.rdkit import from_rdkit_molecule
+                try:
+                    ma, mb = normalised(from_rdkit_molecule(rd0)), normalised(from_rdkit_molecule(rd1))
+                except Exception:
+                    break
+                ck.case(('ez-partner', smi, bd.GetIdx()))
+                if ma is not None and mb is not None and str(ma) == str(mb):
+                    rep.counterexample(f'from-ez-merged:{smi}', 'the E and the Z isomer (different RDKit molecules) become the same chython molecule', {'smiles': smi, 'bond': bd.GetIdx()},
+                                       str(ma), 'two different molecules', 'RDKit canonical isomeric SMILES of the two inputs differ',
+                                       replay_py=py_from(smi) + f"\nr2 = Chem.MolFromSmiles({Chem.MolToSmiles(rd1)!r}); print(str(from_rdkit_molecule(r2)))")
+                break
     for variant, rdv in rd_variants(smi, rng):
         m2 = oracle_from(rep, smi, variant, rdv, aro)
         ck.case(('from', smi, variant))
@@ -1576,6 +1665,7 @@ def search(ck, n_corpus, extra=()):
     full = ck.tier == 'thorough'
     pool = [('directed', s) for s in extra] + [('stereo', s) for s in STEREO_SMILES] + [('metal', s) for s in METAL_SMILES] + \
            [('atoms', s) for s in ATOM_SMILES] + [('bare', s) for s in BARE_SMILES] + [('dative', s) for s in dative_smiles()] + \
+           [('isotope+charge', s) for s in ISO_CHARGE_SMILES] + [('ring-alkene', s) for s in RING_ALKENE_SMILES] + \
            [('perm', s) for s in (perm_smiles() if full else corpus.sample(perm_smiles(), 40, ck.seed, 'c20sp'))] + \
            [('corpus', s) for s in corpus.sample(corpus.lipo(), n_corpus, ck.seed, 'c20search')] + \
            [('corpus-stereo', s) for s in corpus.sample(corpus.stereo_smiles(), n_corpus, ck.seed, 'c20searchs')]
